@@ -42,6 +42,10 @@ struct trie_node {
 	struct trie_node **children;
 	uint32_t num_children;
 	uint32_t refcount;
+	/* qb_map_rm() was called on it: the node keeps its key and value for
+	 * the iterators positioned on it (and for the deferred DELETED
+	 * notification) but is not part of the map any more */
+	int32_t removed;
 	struct trie_node *parent;
 	struct qb_list_head *notifier_head;
 };
@@ -98,7 +102,7 @@ keep_going:
 		}
 	}
 	if (n) {
-		if (all || trie_node_alive(n)) {
+		if (all || (trie_node_alive(n) && !n->removed)) {
 			return n;
 		} else {
 			c = n;
@@ -124,7 +128,7 @@ keep_going:
 	} while (n == NULL && p != root);
 
 	if (n) {
-		if (all || trie_node_alive(n)) {
+		if (all || (trie_node_alive(n) && !n->removed)) {
 			return n;
 		}
 		if (n == root) {
@@ -194,9 +198,11 @@ trie_node_split(struct trie *t, struct trie_node *cur_node, int seg_cnt)
 	split_node->value = cur_node->value;
 	split_node->key = cur_node->key;
 	split_node->refcount = cur_node->refcount;
+	split_node->removed = cur_node->removed;
 	cur_node->value = NULL;
 	cur_node->key = NULL;
 	cur_node->refcount = 0;
+	cur_node->removed = QB_FALSE;
 	/* move notifier list to split */
 	tmp = split_node->notifier_head;
 	split_node->notifier_head = cur_node->notifier_head;
@@ -392,6 +398,7 @@ trie_node_destroy(struct trie *t, struct trie_node *n)
 
 	n->key = NULL;
 	n->value = NULL;
+	n->removed = QB_FALSE;
 
 	trie_node_release(t, n);
 }
@@ -526,6 +533,17 @@ trie_put(struct qb_map *map, const char *key, const void *value)
 		const char *old_value = n->value;
 		const char *old_key = n->key;
 
+		if (old_value != NULL && n->removed) {
+			/* the entry was removed but iterators are still
+			 * positioned on its node: complete the deletion
+			 * now, the node then carries the new entry.
+			 */
+			trie_notify(n, QB_MAP_NOTIFY_DELETED,
+				    (char *)old_key, (void *)old_value, NULL);
+			n->removed = QB_FALSE;
+			old_value = NULL;
+		}
+
 		n->key = (char *)key;
 		n->value = (void *)value;
 
@@ -547,7 +565,11 @@ trie_rm(struct qb_map *map, const char *key)
 {
 	struct trie *t = (struct trie *)map;
 	struct trie_node *n = trie_lookup(t, key, QB_TRUE);
-	if (n) {
+	if (n && trie_node_alive(n) && !n->removed) {
+		/* nodes without a value only hold the structure together
+		 * (or carry notifiers): such a key is not in the map
+		 */
+		n->removed = QB_TRUE;
 		trie_node_deref(t, n);
 		t->length--;
 		return QB_TRUE;
@@ -561,7 +583,7 @@ trie_get(struct qb_map *map, const char *key)
 {
 	struct trie *t = (struct trie *)map;
 	struct trie_node *n = trie_lookup(t, key, QB_TRUE);
-	if (n) {
+	if (n && !n->removed) {
 		return n->value;
 	}
 
@@ -757,7 +779,7 @@ trie_iter_next(qb_map_iter_t * i, void **value)
 		si->root = trie_lookup(t, si->prefix, QB_FALSE);
 		if (si->root == NULL) {
 			si->n = NULL;
-		} else if (si->root->value == NULL) {
+		} else if (si->root->value == NULL || si->root->removed) {
 			si->n = trie_node_next(si->root, si->root, QB_FALSE);
 		} else {
 			si->n = si->root;
